@@ -351,10 +351,12 @@ def Oracle.packet (o : Oracle) (p : Pkt) (evs : List ObsEv) (st : Option ObsStat
     | some c => some c
     | none =>
       if create then
+        -- in recovery mode a flow gives up holes on purpose: the deliver clause does not apply (correspondence only)
+        let sp := o.cfg.recovery.isNone
         some { v6 := p.v6, cl := src, sv := dst, lastSeen := p.ts,
                -- attached mid-stream: both trackers are default-constructed (ACK number 0, SACK only after use_sack)
-               c2s := if isSyn then {} else { base := some p.dataSeq, akPhase := 2, akSack := o.cfg.useSack },
-               s2c := if isSyn then {} else { base := some p.ack, akPhase := 2, akSack := o.cfg.useSack } }
+               c2s := if isSyn then { specified := sp } else { base := some p.dataSeq, akPhase := 2, akSack := o.cfg.useSack, specified := sp },
+               s2c := if isSyn then { specified := sp } else { base := some p.ack, akPhase := 2, akSack := o.cfg.useSack, specified := sp } }
       else none
   let rest := main.filter (fun e => match e with | .new _ _ => false | _ => true)
   match conn? with
